@@ -8,6 +8,8 @@ CLAIMED = {
          "ex-level glue (:w ranges, :e) is tied under C03/C06."),
  "C04": ("Lean 4 theorem refines_zipper (Props/C04.lean, Lemmas/Hist*.lean): for every history of commands, undo and redo of any length the model of lbuf.c never traps and equals a zipper of whole texts, with the corollaries of the property (exact undo/redo, redo branch discarded, ends fail unchanged, compound command = one step). Tied by exhaustive operation sequences and long random histories at the lbuf API (text, return codes, marks, history cursor).",
          "That each editor command bumps the sequence counter exactly once is tied at the ex/vi level (C02, C15, C20)."),
+ "C06": ("Lean 4 theorems (Props/C06.lean, Lemmas/C06*.lean) over the model of ex.c/lbuf.c: region_valid / region_invalid_pure (address evaluation never changes the text and yields 0 <= b <= e <= len or is rejected), edit_frame (the primitive replaces exactly [b,e)), per-command frame laws ec_delete/yank/insert(a,i,c)/put/print/lnum/mark/rs_spec (resulting text = take ++ new ++ drop, register, output and cursor as stated; rc=1 leaves the text unchanged), addr0_is_before_first, invalid_region_rejected / invalid_region_unchanged, mark_stable / mark_in_deleted_range (marks outside the edited range keep their line). Tied by generated scripts of line commands judged after every command by a reference line editor in the driver (text, output, registers, marks) and by the model run on the same script.",
+         "ec_read/ec_null and whole scripts through ex_exec have no theorem (judged by the reference and the model correspondence only); :r goes through lbuf_rd (C01)."),
  "C10": ("Lean 4 theorems (Props/C10.lean, Lemmas/C10*.lean) over the model of regex.c: vm_sound / regcomp_sound / regexec_sound (every reported match and its group marks are a genuine parse of the pattern, in the declarative semantics Matches, with atoms judged on the whole subject), leftmost_vm(_strong) (no earlier start position has a successful run), groups_nested (group marks are the entry/exit of the last occurrence, inner marks inside), and loop_eq_bt (the VM on the emitted code equals a continuation-passing backtracker on the tree, depth accounting included). Tied by every pattern <= 3/4 symbols over the metacharacter alphabet x small lines, random ERE patterns, all classes x all bytes, pattern sets; the instruction dump of every compiled program is compared with the model's emit.",
          "Completeness and priority (no match missed, first parse) are judged on every uncut run by the ordered reference semantics in the driver (Spec/RegexSem.lean) but are not yet theorems; the hook counter in regex.c tells which runs the depth limit cut."),
  "C11": ("Lean 4 theorems (Props/C11.lean, Lemmas/C11*.lean): parse_bounds (every compiled tree has 0 <= mn <= NREPS, mx <= NREPS, mx < 0 or mn <= mx), emit_length, emitLen_le_count and program_fits (for every byte string the compiled program fits the allocation), jmpend_bounded, emit_wf / regcomp_wf / no_edge_trap (the VM is total by well-founded recursion and never takes a checked edge on compiled programs), atomMatch_range / offsets_in_range / regcomp_offsets (0 <= so <= eo <= length, marks in range) for every subject, flags included. Tied by all metacharacter strings <= 3/4 symbols, malformed constructs and random byte strings under ASan.",
@@ -44,7 +46,7 @@ def main():
         "hooks": {"guard": "NEATVI_VERIF",
                   "enable": "harnesses are compiled from /repo's working tree with clang-14 -DNEATVI_VERIF -fsanitize=address,undefined (tools/vlib.py CFLAGS)",
                   "baseline_off_cmd": "cd /repo && make -s clean && make -s && sh test.sh",
-                  "source_commits": [], "add_only": True},
+                  "source_commits": ["72be0dc", "8e53608"], "add_only": True},
         "engines": [
             {"name": "lean-model", "path": "lean/", "serves_properties": sorted(CLAIMED), "kind_free_text": "hand-written executable Lean 4 model + theorems; tables regenerated from /repo by tools/extract.py; compiled line-protocol driver"},
             {"name": "probe-harnesses", "path": "harness/", "serves_properties": sorted(CLAIMED), "kind_free_text": "C probes that #include /repo sources (ASan/UBSan) and print observables for the correspondence check"}],
